@@ -21,6 +21,7 @@ ASSUMPTIONS = ["only the loop-level clause of C13 is decided; closed-form log-pr
 TIERS = {"quick": {"runs": 200}, "thorough": {"runs": 4000}}
 REQUIRED = ["resumed_with_global_step", "greedy_steps", "sampled_action_passed_through", "tabular_greedy_steps", "eps1_twin_runs", "exploration_counts"]
 REQUIRED_QUICK = REQUIRED
+CHUNK = 24  # TrainSim plans per fresh worker process
 SHRINK_LISTS = [["env", "script"], ["script"]]
 SHRINK_INTS = []
 DQN = ["dqn", "nature_dqn", "ddqn", "ddqn_per"]
